@@ -34,9 +34,10 @@ LEVEL = {
             "with keys in every relative order, flat chains up to 21 (33) keys, depth-2 histories (a first operation on a valid or invalid expression, "
             "then every evaluation) and under all completion orders of suspending evaluators, against the compositional reference evaluator.", "reference evaluator R3 (mc/ref/reqeval.py), R1, R8; the parse tree is the implementation's (C01's concern)"),
     "C05": ("Metamorphic relations (hint / FC / brackets / swap / UNKNOWN refinement) at every position of every base expression up to 3 (4) leaves "
-            "x all assignments: implementation against itself, no expected values.", "the AST enumerator; the relations as stated in the property"),
+            "x all assignments, also through the shipped providers and a plain-function hints provider: implementation against itself, no expected values.", "the AST enumerator; the relations as stated in the property"),
     "C06": ("Every in-domain AST (valid and invalid) up to 3 (4) leaves x all requirement and format assignments x three AHB wrappings; the "
-            "structural criterion R4 must coincide with 'raises under every / no assignment' and with is_valid_expression.", "R4 in mc/ref/reqeval.py"),
+            "structural criterion R4 must coincide with 'raises under every / no assignment' and with is_valid_expression (string and tree input, harness and "
+            "CER-based evaluators, several spellings of one key number, hint nodes of user subclasses).", "R4 in mc/ref/reqeval.py"),
     "C07": ("Every valid expression with FC keys up to 4 (5) leaves x all RC assignments x all FC truth assignments; the returned string is re-parsed "
             "by the reference parser and its truth table compared with the direct reading.", "R2, R3; interpretation I1 (two accepted readings)"),
     "C08": ("Every FC expression up to 4 (5) leaves with every key labelling x all truth assignments, through the transformer, the async entry point, "
@@ -49,21 +50,23 @@ LEVEL = {
     "C10": ("All 1-3 (4) atom expressions over 8 abbreviation atoms x 8 package tables x flag combinations, many-occurrence chains, shipped resolvers "
             "and all completion orders of a suspending resolver, against textual bracketed substitution + real parser.", "R6 (mc/ref/subst.py); I3"),
     "C11": ("Explicit-state BFS over histories of parse / resolve / evaluate / edit / flood operations on the real functions with canonical state "
-            "hashing; the invariant 'every parser result equals the cold-state snapshot' is evaluated in every state.", "the cold-state snapshot "
+            "hashing; the invariant 'every parser result equals the cold-state snapshot' (incl. a 13-operand expression with operator runs) is evaluated in every state; "
+            "edits include assignment to Token attributes, malformed siblings include the lower-case twin of a cached string.", "the cold-state snapshot "
             "taken through the public functions; whitespace-padded spellings give identical trees"),
     "C12": ("Stateless DFS over ALL completion orders (plus bounded early/batched completions) of the awaitables ahbicht gathers, on a virtual event "
             "loop that owns the only scheduling nondeterminism; every schedule's result equals the zero-yield baseline; the baseline itself is judged by absolute oracles (reference value, R6 substitution, "
-            "solo runs of concurrent evaluations, no data handed to two evaluations). 11 harnesses incl. the library's CER-based evaluators, "
-            "two format versions behind one provider and user-style evaluators with plain + coroutine methods.", "mc/vloop.py; asyncio "
+            "solo runs of concurrent evaluations, no data handed to two evaluations). 13 harnesses incl. the library's CER-based evaluators, "
+            "two format versions / a general and a specific format behind one provider, user-style evaluators with plain + coroutine methods that use their "
+            "EvaluationContext, one long-lived evaluator across event loops, concurrent evaluations of equal and of different expressions.", "mc/vloop.py; asyncio "
             "exposes no other nondeterminism to this library"),
     "C13": ("Every AHB tree shape up to 5/6 nodes x every labelling from a 3-4 class menu, chains, wide and equal-name nodes x both flags, against the "
             "reference walk (document order, pruning, dominance tables, NotImplementedError rule); plus trees with siblings under all completion "
             "orders of suspending evaluators (virtual event loop).", "R7 (mc/ref/validation.py); the node's own "
             "evaluation is taken from the real evaluate_ahb_expression_tree"),
     "C14": ("Every tree shape up to 4 (5) nodes x every labelling containing SOLL x both flags: flag run == run on the rewritten AHB (both flags), "
-            "four entry points (deep, segment level on a group and on a segment root, segment), plus call sequences in one context. Metamorphic, no expected values.", "R5 for the rewriting"),
+            "four entry points (deep, segment level on a group and on a segment root, segment), plus call sequences in one context and validations with different flags in flight at once. Metamorphic, no expected values.", "R5 for the rewriting"),
     "C15": ("All completion orders for AHBs with 2-3 free-text elements in 7 layouts, shared FC key, package-delivered FCs, shipped constraints, "
-            "ambient context preset: every element's result equals its solo validation and echoes its own input.", "mc/vloop.py"),
+            "ambient context preset, plain and coroutine constraint methods, date-time typed elements, two validations running concurrently: every element's result equals its solo validation and echoes its own input.", "mc/vloop.py"),
     "C16": ("Fault enumeration: every non-empty SUBSET of fault sites (nodes and pool entries) of every tree shape up to 4 (5) nodes carries one of 9 "
             "invalid expressions; all other nodes equal the 'Kann' run; plus every fault site of 4 shapes with suspending evaluators under all "
             "completion orders (<= 2 / 4 deviations).", "differential against the implementation on the 'Kann' AHB; I4"),
@@ -76,7 +79,7 @@ LEVEL = {
             "schema operations (rejected loads, validate, concise schemata) followed by round trips: load(dump(x)) == x and evaluate(load(dump(t))) == evaluate(t).",
             "equality as defined by the model classes; trees compared with token types"),
     "C20": ("Every second of DST switch days, a window around every whole hour of every day 1996-2037 (thorough: every minute), every offset on a "
-            "15-/1-minute grid in 10 spellings for critical instants, all short garbage strings and boundary field products.", "R9 integer EU-rule "
+            "15-/1-minute grid in 10 spellings for critical instants, call sequences in one context, 5 process time zones, all short garbage strings and boundary field products.", "R9 integer EU-rule "
             "(mc/ref/berlin.py); Python's fromisoformat decides what is a datetime with offset (I7)"),
 }
 
